@@ -380,7 +380,7 @@ class HTMLParserTreeBuilder(HTMLTreeBuilder):
                 extra_parser_kwargs[arg] = value
         super(HTMLParserTreeBuilder, self).__init__(**kwargs)
         parser_args = parser_args or []
-        parser_kwargs = parser_kwargs or {}
+        parser_kwargs = dict(parser_kwargs or {})
         parser_kwargs.update(extra_parser_kwargs)
         parser_kwargs["convert_charrefs"] = False
         self.parser_args = (parser_args, parser_kwargs)
